@@ -148,7 +148,12 @@ def flat_sum(d, ctx):
 def draws_case(draw):
     kinds = DISP + DEFS
     op = draw(op_st(kinds))
-    return {"op": op, "cell": draw(cell_st()), "group": draw(group_st(3 if op["kind"] in ("Rotation", "TranslationRotation") else 1)), "seed": draw(st.integers(0, 2 ** 32)), "n": 40}
+    case = {"op": op, "cell": draw(cell_st()), "group": draw(group_st(3 if op["kind"] in ("Rotation", "TranslationRotation") else 1)), "seed": draw(st.integers(0, 2 ** 32)), "n": 40}
+    # the documented attributes (step_size / max_value / mask) may be re-tuned on a live operation: construct with
+    # other values first, then assign the values under test
+    if draw(st.booleans()) and "size" in op:
+        case["construct_size"] = draw(log10_floats(-3, 1 if op["kind"] in ("Ball", "Sphere", "Box") else 0))
+    return case
 
 
 def check_draw(kind, d, res, ctx, atoms, case):
@@ -212,7 +217,15 @@ def run_draws(case):
     labels = ["draws:" + kind]
     try:
         ctx, atoms = make_context(case)
-        op = build_op(d)
+        if "construct_size" in case:
+            op = build_op(dict(d, size=case["construct_size"]))
+            if hasattr(op, "step_size"):
+                op.step_size = d["size"]
+            else:
+                op.max_value = d["size"]
+            labels.append("retuned-after-construction")
+        else:
+            op = build_op(d)
         for i in range(case["n"]):
             if kind == "Composite":
                 clone = np.random.Generator(np.random.PCG64())
